@@ -669,8 +669,59 @@ static void wide_fields_body()
     mc::outcome(vd.shape);
 }
 
+// ------------------------------------------------------------------ (5) re-entrant output callback
+// A callback that itself formats a number through the engine while a floating conversion is being
+// emitted must not disturb the outer call (digits kept in static scratch memory would be overwritten).
+static void reentrant_callback_body()
+{
+    static const double D[] = {0.0,  -1.0,        0.5,   9.995, 123456.789, -1e10,   1e-5,  0.000123456, 1e15, 1e100, -DBL_MAX, DBL_MIN,
+                               4.9e-324, 999999.5, 3.141592653589793, -2.718281828459045e-7, INFINITY, NAN};
+    static const struct
+    {
+        int k, v;
+    } P[] = {{0, 0}, {2, 0}, {2, 3}, {3, 17}};
+    static const int PERIOD[3] = {1, 3, 7};
+    const int ND = sizeof D / sizeof D[0];
+    int unit = mc::choose(ND * 6);
+    int pi = mc::choose(4), wi = mc::choose(2), per = mc::choose(3), kind = mc::choose(NEST_KINDS);
+    Spec d;
+    d.conv = CONV[unit % 6];
+    d.pkind = P[pi].k;
+    d.p = P[pi].v;
+    if (wi)
+    {
+        d.wkind = 1;
+        d.w = 24;
+        d.flags = F_ZERO;
+    }
+    double x = D[unit / 6];
+    Args a;
+    string f = "<" + render(d, a) + ">";
+    a.push_back(Arg::mkD(x));
+    mc::describe("format %s precision arg %d value %.17g; after every %d%s output character the callback runs nested format #%d through the engine",
+                 vis(f).c_str(), d.p, x, PERIOD[per], PERIOD[per] == 1 ? "" : "th", kind);
+    string tail = string(1, lowc(d.conv));
+    mc::crash_context("C13.reentrant_callback.crash.%s", tail.c_str());
+    Out plain = run_impl(f, a);
+    size_t calls = 0;
+    string bad;
+    Out got = run_impl_nested(f, a, PERIOD[per], kind, &calls, &bad);
+    mc::crash_context("C13.harness");
+    if (got.text != plain.text || got.ret != plain.ret || got.emitted != plain.emitted)
+        mc::violation("C13.reentrant_callback.outer_text." + tail,
+                      "format %s of %.17g: with a callback that formats through the engine (%zu nested calls) the outer call emitted %s and returned "
+                      "%d; undisturbed it emits %s and returns %d",
+                      vis(f).c_str(), x, calls, vis(got.text).c_str(), got.ret, vis(plain.text).c_str(), plain.ret);
+    if (!bad.empty())
+        mc::violation("C13.reentrant_callback.nested_text." + tail, "format %s of %.17g: %s", vis(f).c_str(), x, bad.c_str());
+    if (calls >= 2)
+        mc::nontrivial();
+    mc::outcome(mc::fmt("%c: %zu nested calls", lowc(d.conv), calls));
+}
+
 MC_INIT
 {
+    mc::add_check("reentrant_callback", reentrant_callback_body);
     mc::add_check("wide_fields", wide_fields_body);
     mc::add_check("long_precisions", long_precisions_body);
     mc::add_check("values_x_precisions", values_body);
